@@ -123,9 +123,18 @@ static void put_result(bool r, int e) {
     if (r) printf("true"); else printf("false %s", errname(e));
 }
 
+/* per-operation watchdog: an endless loop inside the library is a dead harness, not a stuck check */
+static void on_alarm(int sig) {
+    (void) sig;
+    static const char msg[] = "TIMEOUT: one operation ran for more than 8 s (endless loop in the library?)\n";
+    if (write(2, msg, sizeof(msg) - 1) < 0) { }
+    verif_flush_cb(); _exit(96);
+}
+
 int main(void) {
     char *line = NULL; size_t cap = 0; ssize_t len;
     harness_init();
+    signal(SIGALRM, on_alarm);
     const char *tmp = getenv("TMPDIR");
     snprintf(path, sizeof(path), "%s/qlt_XXXXXX", (tmp && strlen(tmp) < 40) ? tmp : "/tmp");
     int fd = mkstemp(path);
@@ -137,6 +146,7 @@ int main(void) {
     while ((len = getline(&line, &cap, stdin)) > 0) {
         char *w[MAXW]; int nw = split_words(line, w);
         if (nw == 0) continue;
+        alarm(8);
         const char *op = w[0];
         bytes_t a = {0, 0}, d = {0, 0};
         char *name = NULL;
@@ -283,7 +293,8 @@ int main(void) {
                 printf(" ");
                 if (!(fresh = do_next(name, newmem, false))) break;
             }
-        } else if (!strcmp(op, "walkrm") && (nw == 2 || nw == 4)) {
+        } else if ((!strcmp(op, "walkrm") || !strcmp(op, "walkrmc")) && (nw == 2 || nw == 4)) {
+            bool rmcopies = op[6] == 'c';      /* walkrmc: the removed object was obtained with newmem = true */
             /* walk (optionally name-filtered) and remove the i-th returned entry when bit i of mask is set */
             unsigned long mask = strtoul(w[1], NULL, 10);
             bytes_t k = {0, 0}; char *nm = NULL;
@@ -294,7 +305,7 @@ int main(void) {
             size_t i = 0;
             for (size_t guard = T->num + 2; guard > 0; guard--, i++) {
                 printf(" ");
-                if (!do_next(nm, false, false)) break;
+                if (!do_next(nm, rmcopies, false)) break;
                 if (i < 64 && ((mask >> i) & 1)) {
                     errno = 0;
                     bool r = T->removeobj(T, &CUR);
@@ -330,18 +341,69 @@ int main(void) {
             fresh = false; if (OPT[0]) live = false;
             printf("allocs=%ld loaded %zd%s", aw_end(), n, (n < 0 && e == ENOMEM) ? " ENOMEM" : "");
             free(sp.p);
-        } else if (!strcmp(op, "rt") && nw == 6) {
+        } else if (!strcmp(op, "rt") && nw == 7 && w[6][0] == '0' && !all_values_cstr()) {
+            printf("nonul");                   /* plain save needs C-string values */
+        } else if (!strcmp(op, "rt") && (nw == 6 || nw == 7)) {
+            bool enc = !(nw == 7 && w[6][0] == '0');
             /* save (encoded) then load into a NEW empty table with the given options, which replaces T */
             bytes_t sp; unhex(w[1], &sp);
             aw_arm(0, 0);
-            bool r = T->save(T, path, (char) sp.p[0], true);
+            bool r = T->save(T, path, (char) sp.p[0], enc);
             T->free(T);
             for (int i = 0; i < 4; i++) OPT[i] = w[i + 2][0] == '1';
             T = mk(OPT[0], OPT[1], OPT[2], OPT[3], 0);
             reset_cur();
-            ssize_t n = T->load(T, path, (char) sp.p[0], true);
+            ssize_t n = T->load(T, path, (char) sp.p[0], enc);
             printf("%s loaded %zd", r ? "saved" : "false", n);
             free(sp.p);
+        } else if (!strcmp(op, "inv") && nw == 1) {
+            /* calls with invalid arguments on the CURRENT table: result:errno per call; nothing may
+             * change (the dump follows). First the calls documented (or coded) to fail with EINVAL,
+             * then `|`, then the calls whose documentation promises a plain failure value or EIO. */
+            static const char key[] = "invkey";
+            size_t sz = 99; int e[32]; int r[32]; int i = 0;
+            aw_arm(0, 0);
+            errno = 0; r[i] = T->put(T, NULL, "v", 2); e[i++] = errno;
+            errno = 0; r[i] = T->put(T, key, NULL, 2); e[i++] = errno;
+            errno = 0; r[i] = T->put(T, key, "v", 0); e[i++] = errno;
+            errno = 0; r[i] = T->putstr(T, NULL, "v"); e[i++] = errno;
+            errno = 0; r[i] = T->putstr(T, key, NULL); e[i++] = errno;
+            errno = 0; r[i] = T->putstrf(T, NULL, "%s", "v"); e[i++] = errno;
+            errno = 0; r[i] = T->putint(T, NULL, 7); e[i++] = errno;
+            errno = 0; r[i] = T->get(T, NULL, &sz, false) != NULL; e[i++] = errno;
+            errno = 0; r[i] = T->get(T, NULL, &sz, true) != NULL; e[i++] = errno;
+            errno = 0; r[i] = T->get(T, NULL, NULL, true) != NULL; e[i++] = errno;
+            errno = 0; r[i] = T->getstr(T, NULL, false) != NULL; e[i++] = errno;
+            errno = 0; r[i] = T->getstr(T, NULL, true) != NULL; e[i++] = errno;
+            errno = 0; r[i] = T->getint(T, NULL) != 0; e[i++] = errno;
+            errno = 0; r[i] = T->save(T, NULL, '=', true); e[i++] = errno;
+            int nein = i;
+            errno = 0; r[i] = (int) T->remove(T, NULL); e[i++] = errno;
+            errno = 0; r[i] = T->removeobj(T, NULL); e[i++] = errno;
+            errno = 0; r[i] = T->getnext(T, NULL, NULL, false); e[i++] = errno;
+            errno = 0; r[i] = T->getnext(T, NULL, key, true); e[i++] = errno;
+            errno = 0; r[i] = T->debug(T, NULL); e[i++] = errno;           /* documented: EIO */
+            errno = 0; r[i] = T->save(T, "/nonexistent-dir/qlt", '=', true); e[i++] = errno;      /* false */
+            errno = 0; r[i] = (int) T->load(T, "/nonexistent-dir/qlt", '=', true); e[i++] = errno; /* -1 */
+            T->freemulti(NULL);                                           /* documented no-op */
+            printf("inv");
+            for (int j = 0; j < i; j++) printf("%s %d:%s", j == nein ? " /" : "", r[j], e[j] == EIO ? "EIO" : errname(e[j]));
+            printf(" sz=%zu", sz);
+            /* NOT documented either way: a NULL name makes getmulti return every entry (full scan
+             * of getnext); shown so that the model has to predict it */
+            size_t n = 12345;
+            errno = 0;
+            qlisttbl_data_t *objs = T->getmulti(T, NULL, true, &n);
+            printf(" gmnull=%zu:%s", n, objs ? "0" : errname(errno));
+            if (objs) T->freemulti(objs);
+        } else if (!strcmp(op, "lock") && nw == 1) {
+            /* lock / unlock / size through the method pointers (recursive when thread-safe) */
+            T->lock(T);
+            T->lock(T);
+            size_t n1 = T->size(T);
+            T->unlock(T);
+            T->unlock(T);
+            printf("locked size %zu", n1);
         } else if (!strcmp(op, "end") && nw == 1) {
             /* C11: once the container is released every block it allocated is freed;
              * C12: the copies handed out must have survived everything including the release */
